@@ -54,7 +54,7 @@ func (h *HttpServer) handleUnary(w http.ResponseWriter, r *http.Request) {
 		return
 	}
 
-	req, err := ReadRequest(bytes.NewReader(body))
+	req, err := readRequestBytes(body)
 	if err != nil {
 		h.writeHttpError(w, http.StatusBadRequest, err, nil)
 		return
